@@ -145,7 +145,7 @@ fn shape_strategy() -> impl Strategy<Value = Shape> {
         let anim_vals: Vec<BoxedStrategy<f64>> = anim_tys.iter().map(|t| value_for(*t)).collect();
         let timing = (mv_core::desc::cycle_strategy(), prop_oneof![2 => Just(0.0f32), 1 => mv_core::desc::dyadic(16, 2)], prop_oneof![3 => Just(Rep::None), 2 => (0u32..=3).prop_map(Rep::Times), 1 => Just(Rep::Infinite)], any::<bool>())
             .prop_map(|(cycle, delay, repeat, reverse)| Timing { cycle, delay, repeat, reverse });
-        let set = (timing, ez17(), prop::collection::vec(kf, 0..=5), prop::collection::vec(0.0f32..3.0, 10), prop::option::weighted(0.3, anim_vals), mv_core::desc::pos_strategy(), all_vals, 0u8..4).prop_map(
+        let set = (timing, ez17(), prop::collection::vec(kf, 0..=5), prop::collection::vec(0.0f32..3.0, 10), prop::option::weighted(0.3, anim_vals), mv_core::desc::pos_strategy(), all_vals, 0u8..5).prop_map(
             |(timing, default_ez, kfs, rel_times, start, from_pos, from_vals, order)| {
                 let mut times: Vec<f32> = rel_times.iter().map(|r| timing.delay + timing.cycle * r).collect();
                 times.push(0.0);
@@ -220,11 +220,11 @@ fn program(shapes: &[Shape]) -> String {
         let ctor_sent: String = sh.fields.iter().enumerate().map(|(k, f)| format!("x{k}: {}", sentinel(k, f.ty))).collect::<Vec<_>>().join(", ");
         let dump: String = sh.fields.iter().enumerate().map(|(k, _)| format!("t.x{k} as f64")).collect::<Vec<_>>().join(", ");
         src += &format!("    fn fresh() -> T{i} {{ T{i} {{ {ctor_sent} }} }}\n    fn dump(t: &T{i}) -> Vec<f64> {{ vec![{dump}] }}\n");
-        src += &format!("    pub fn run(sets: &Value) -> Value {{\n        let mut out = vec![];\n        for set in sets.as_array().unwrap() {{\n            let tm = &set[\"timing\"];\n            let (cy, de, rp, rv) = (tm[\"cycle\"].as_f64().unwrap() as f32, tm[\"delay\"].as_f64().unwrap() as f32, rep(&tm[\"repeat\"]), tm[\"reverse\"].as_bool().unwrap());\n            let order = set[\"order\"].as_u64().unwrap_or(0);\n            // the order of the builder's setter calls must not matter: four different orders, keyframes before, between or after\n            let mut b = S{i}::timeline();\n            b = match order {{ 0 => b.duration_seconds(cy).delay_seconds(de).repeat(rp).reverse(rv).default_easing(ez(&set[\"default_ez\"])), 2 => b.delay_seconds(de), 3 => b.repeat(rp).reverse(rv).duration_seconds(cy), _ => b }};\n            for kf in set[\"kfs\"].as_array().unwrap() {{\n                let mut k = S{i}::keyframe(kf[0].as_f64().unwrap() as f32);\n");
+        src += &format!("    pub fn run(sets: &Value) -> Value {{\n        let mut out = vec![];\n        for set in sets.as_array().unwrap() {{\n            let tm = &set[\"timing\"];\n            let (cy, de, rp, rv) = (tm[\"cycle\"].as_f64().unwrap() as f32, tm[\"delay\"].as_f64().unwrap() as f32, rep(&tm[\"repeat\"]), tm[\"reverse\"].as_bool().unwrap());\n            let order = set[\"order\"].as_u64().unwrap_or(0);\n            // the order of the builder's setter calls must not matter: five different orders, keyframes before, between or after; order 4 first sets throw-away values that the later calls must replace\n            let mut b = S{i}::timeline();\n            b = match order {{ 0 => b.duration_seconds(cy).delay_seconds(de).repeat(rp).reverse(rv).default_easing(ez(&set[\"default_ez\"])), 2 => b.delay_seconds(de), 3 => b.repeat(rp).reverse(rv).duration_seconds(cy), 4 => b.duration_seconds(cy * 3.0 + 1.0).delay_seconds(5.0).reverse(!rv).repeat(mina::Repeat::Times(5)).default_easing(mina::Easing::OutCirc), _ => b }};\n            for kf in set[\"kfs\"].as_array().unwrap() {{\n                let mut k = S{i}::keyframe(kf[0].as_f64().unwrap() as f32);\n");
         for (j, fi) in anim.iter().enumerate() {
             src += &format!("                if let Some(v) = kf[1][{j}].as_f64() {{ k = k.x{fi}(v as {}); }}\n", sh.fields[*fi].ty.name());
         }
-        src += "                if !kf[2].is_null() { k = k.easing(ez(&kf[2])); }\n                b = b.keyframe(k);\n            }\n            b = match order { 1 => b.default_easing(ez(&set[\"default_ez\"])).reverse(rv).repeat(rp).delay_seconds(de).duration_seconds(cy), 2 => b.duration_seconds(cy).default_easing(ez(&set[\"default_ez\"])).repeat(rp).reverse(rv), 3 => b.delay_seconds(de).default_easing(ez(&set[\"default_ez\"])), _ => b };\n            let mut tl = TimelineBuilder::build(b);\n";
+        src += "                if !kf[2].is_null() { k = k.easing(ez(&kf[2])); }\n                b = b.keyframe(k);\n            }\n            b = match order { 1 | 4 => b.default_easing(ez(&set[\"default_ez\"])).reverse(rv).repeat(rp).delay_seconds(de).duration_seconds(cy), 2 => b.duration_seconds(cy).default_easing(ez(&set[\"default_ez\"])).repeat(rp).reverse(rv), 3 => b.delay_seconds(de).default_easing(ez(&set[\"default_ez\"])), _ => b };\n            let mut tl = TimelineBuilder::build(b);\n";
         src += "            let meta = json!({\"delay\": tl.delay(), \"cycle\": tl.cycle_duration(), \"duration\": if tl.duration().is_finite() { json!(tl.duration()) } else { json!(\"inf\") }, \"repeat\": rep_out(tl.repeat())});\n";
         src += &format!("            if let Some(st) = set[\"start\"].as_array() {{\n                let mut sv = fresh();\n");
         for (j, fi) in anim.iter().enumerate() {
